@@ -489,4 +489,42 @@ def G.mkChain (a b : G) : G :=
   | a, .chain p1 => .chain (a :: p1)
   | a, b => .chain [a, b]
 
+
+/-- `nth` (:627): the `idx`-th element (from 0) for which the predicate holds, `none` when the generator ends
+first; every inspected element comes through `iter`, i.e. takes a permit of the consumer's budget; an error
+element or an erroring predicate is the error; a negative index is an error before anything is pulled -/
+def nthLoop (L : Option Nat) (p : P) : Nat → It → Nat → Res (Option V)
+  | 0, _, _ => .outOfFuel
+  | n + 1, it, left =>
+    match step L it with
+    | .done => .ok none
+    | .skip s => nthLoop L p n s left
+    | .yield .viol _ => .viol
+    | .yield x s =>
+      match p x with
+      | .viol => .viol
+      | .err => .err
+      | .f => nthLoop L p n s left
+      | .t =>
+        match left with
+        | 0 => (match x with | .val v => .ok (some v) | _ => .err)
+        | k + 1 => nthLoop L p n s k
+
+def nth (L : Option Nat) (fuel : Nat) (g : G) (idx : Int) (p : P) : Res (Option V) :=
+  if idx < 0 then .err else nthLoop L p fuel (g.iter L) idx.toNat
+
+/-- `reduce(g, init, f)` (`include.rs:210`): `g.aggregate(init, f).last()` -/
+def reduce (L : Option Nat) (fuel : Nat) (g : G) (init : Item) (f : F2) : Res V :=
+  last L fuel (.aggregate g init f)
+
+/-- `flatten` of a sequence of generators (`include.rs:1367`): `reduce([].to_generator(), add)`, a left fold of
+`XGenerator::chain` -/
+def G.flattenAll (gs : List G) : G := gs.foldl G.mkChain (.fromArr [])
+
+/-- `distinct` (`include.rs:198`): `with_count(h, e).filter(i -> i::item1 == 1).map(i -> i::item0)` -/
+def G.distinct (g : G) (eq : V → V → Bool) : G :=
+  .map (.filter (.withCount g eq)
+    (fun | .val (.tup [_, .int n]) => if n == 1 then .t else .f | .viol => .viol | _ => .err))
+    (fun | .val (.tup [v, _]) => .val v | .viol => .viol | _ => .err)
+
 end XrayModel.Gen
